@@ -287,6 +287,28 @@ create_1d_filter (int              width,
 
 	/* Normalize, with error diffusion */
 	p -= width;
+
+	if (total == 0)
+	{
+	    /* The kernels do not overlap at any of the sample positions
+	     * (IMPULSE combined with a kernel narrower than the sample
+	     * spacing, or with another IMPULSE), so there is nothing to
+	     * normalize: take the sample nearest to the filter centre.
+	     */
+	    int nearest = 0;
+
+	    for (x = x1; x < x2; ++x)
+	    {
+		if (fabs (x + 0.5 - frac) < fabs (x1 + nearest + 0.5 - frac))
+		    nearest = x - x1;
+	    }
+
+	    for (x = 0; x < width; ++x)
+		*p++ = (x == nearest)? pixman_fixed_1 : 0;
+
+	    continue;
+	}
+
         total = 65536.0 / total;
         new_total = 0;
 	e = 0.0;
@@ -312,7 +334,10 @@ create_1d_filter (int              width,
 static int
 filter_width (pixman_kernel_t reconstruct, pixman_kernel_t sample, double size)
 {
-    return ceil (filters[reconstruct].width + size * filters[sample].width);
+    int width = ceil (filters[reconstruct].width + size * filters[sample].width);
+
+    /* IMPULSE.IMPULSE has no extent, but every phase needs a coefficient */
+    return width > 0 ? width : 1;
 }
 
 #ifdef PIXMAN_GNUPLOT
